@@ -1796,8 +1796,12 @@ class VM:
             offset = to_integer(args[1]) if len(args) > 1 else 0
 
             if isinstance(source, (JSArray, JSTypedArray)):
-                for i in range(source.length):
-                    arr.set_index(offset + i, source.get_index(i))
+                # The source may be a view over the receiver's own buffer
+                # (a.set(a.subarray(0, 3), 1)): read all its values before
+                # the first write, as if they went through a temporary copy
+                values = [source.get_index(i) for i in range(source.length)]
+                for i, value in enumerate(values):
+                    arr.set_index(offset + i, value)
             return UNDEFINED
 
         methods = {
